@@ -24,6 +24,9 @@ import directed  # noqa: E402
 import gen_random  # noqa: E402
 
 POOL_PROPS = ["C%02d" % i for i in range(1, 16)]
+# antecedents that (nearly) every execution exercises: they do not make a case "non-trivial" for its property
+TRIVIAL_HITS = {"C01.notfull", "C03.count", "C04.calls", "C09.idem", "C09.lock", "C10.exact", "C10.names", "C10.member",
+                "C11.dense", "C11.name", "C15.get", "C13.flush"}
 
 
 def tree_hash():
@@ -173,6 +176,8 @@ def run_pipeline(tier, seed, log=print):
     res["hit_traces"] = {h: len(v) for h, v in hit_traces.items()}
     prop_keys = {}
     for h, ks in hit_traces.items():
+        if h in TRIVIAL_HITS:
+            continue
         if h[:1] == "C" and "." in h:
             prop_keys.setdefault(h.split(".")[0], set()).update(ks)
     res["prop_traces"] = {p: len(v) for p, v in prop_keys.items()}
